@@ -9,9 +9,10 @@
       by the surplus the wrapper collected in *args): `wrapperRuns`.
   `discovery_sound_single`: one forwarding call: the same for every non-colliding call, with
       keywords.
-  `flat_program_sound_pos`: the two composed with `visitor_eq_truth_flat`: for every flat program
-      of the forwarding grammar the conclusion holds for the *ground-truth* calls of the program —
-      i.e. the real forwarding that happens when the program runs — not for what the walker says.
+  `flat_program_sound_pos` / `program_sound_pos`: composed with `visitor_eq_truth(_flat)`: for every
+      program of the forwarding grammar (the second: nested functions, lambdas and `nonlocal`
+      included) the conclusion holds for the *ground-truth* calls of the program — i.e. the real
+      forwarding that happens when the program runs — not for what the walker says.
 
   Restrictions (each is where a known finding or a weaker clause of the property lives):
   several forwarding calls + keywords needs role-consistency (finding D23); calls with a `hide_*`
@@ -19,6 +20,7 @@
   statement of Props/C07.
 -/
 import Sigverif.Props.C05
+import Sigverif.Props.C05Full
 import Sigverif.Props.C07kw
 import Sigverif.Props.C04
 import Sigverif.Lemmas.LawsSort
@@ -148,6 +150,23 @@ theorem flat_program_sound_pos (p : Prog) (hflat : FlatProg p) (own R : USig) (r
     intro f hf w hp
     have hc : f.toRec p ∈ forwarding cs := by rw [ht]; exact List.mem_map.2 ⟨f, hf, rfl⟩
     exact h _ hc w hp
+
+/-- the same for every program of the whole grammar (nested functions, lambdas, `nonlocal`) -/
+theorem program_sound_pos (p : Prog) (hp : GrammarProg p) (own R : USig) (resolve : RM → RVal) (m : Nat)
+    (ho : WF own.params) (hres : ∀ r w, resolve r = .fn w → WF w.params)
+    (cs : List CallRec) (hv : runVisitor (render p) = .ok cs)
+    (hd : discovered own resolve (some cs) = .ok R) (hacc : accepts R.params m [] = true) :
+    R = own ∨ ∀ f ∈ truth p, ∀ w, PlainFwd resolve (f.toRec p) w →
+      wrapperRuns own.params w.params (f.toRec p).args.length ((f.toRec p).kwargs.map (·.1)) f.useVa f.useVk m [] = true := by
+  have ht := visitor_eq_truth p hp
+  rw [hv] at ht
+  simp only [Except.map, Except.ok.injEq] at ht
+  rcases discovery_sound_pos own R resolve cs m ho hres hd hacc with h | h
+  · exact .inl h
+  · right
+    intro f hf w hpw
+    have hc : f.toRec p ∈ forwarding cs := by rw [ht]; exact List.mem_map.2 ⟨f, hf, rfl⟩
+    exact h _ hc w hpw
 
 /-! ### non-vacuity: `def w(a, *args, **kwargs): return g(*args, **kwargs)`, `def g(x, y=1)` is a plain forwarding call,
     retrieval returns `(a, x, y=1)`, which is not the plain signature -/
